@@ -229,7 +229,7 @@ fn real_sleep(ms: u64) {
 fn sim_sleep(ms: u64) {
     attosim::sleep_ns(ms * NS_PER_MS);
 }
-fn sim_spawn<F: FnOnce() + Send + 'static>(f: F) -> attosim::thread::JoinHandle {
+fn sim_spawn<F: FnOnce() + Send + 'static>(f: F) -> attosim::thread::JoinHandle<()> {
     attosim::thread::spawn(f)
 }
 
